@@ -56,9 +56,31 @@ def extra_files():
     return out
 
 
+def scale_files(tier):
+    from mc.alphabets import sized_text
+    M = ['meta', {'path': 'f'}, None]
+    out = []
+    b, _ = spec.serialize([
+        ['preamble', sized_text(1025, 'lines'), None, 4, None, None],
+        ['change', None], ['file', None], M,
+        ['diff', sized_text(8193, 'lines').encode(), None, None, None],
+        ['file', None], M,
+        ['diff', sized_text(4097, 'one').encode(), None, None, None],
+        ['file', None], M], 'utf-8')
+    out.append(('scale-8k', b))
+    if tier == 'thorough':
+        b, _ = spec.serialize([
+            ['change', None], ['file', None], M,
+            ['diff', sized_text(65537, 'lines').encode(), None, None, None],
+            ['file', None], M], 'utf-8')
+        out.append(('scale-64k', b))
+    return out
+
+
 def files(tier):
     out = [(n, d) for n, d in base_files() if n != 'long-headers']
     out += extra_files()
+    out += scale_files(tier)
     ex = sorted(glob.glob(os.path.join(spec.REPO, 'docs', 'spec',
                                        'example-diffs', '*.diff')))
     for p in ex if tier == 'thorough' else ex[:2]:
